@@ -456,14 +456,50 @@ class SimFS:
                 self.ctx.fault("fs_lost_write")
         self.volatile.clear()
 
+    # --- sample batches (np.savez / os.makedirs / os.path.isdir as seen by cuqi.experimental.mcmc._sampler) ---
+    def savez(self, file, **arrays):
+        path = str(file)
+        self.ctx.log("fs", "savez", path, sorted(arrays))
+        self._maybe_fault("write", path)
+        self.batches[path] = {k: np.array(v, copy=True) for k, v in arrays.items()}
+
     def install(self):
         import cuqi.experimental.mcmc._sampler as S
         S.open = self.open       # shadows the builtin for that module only
+        self.batches = {}
+        fs = self
+
+        class _NP:
+            """numpy as seen by the sampler module: everything real except savez"""
+            def __getattr__(self_, name):
+                if name == "savez":
+                    return fs.savez
+                return getattr(np, name)
+
+        class _Path:
+            def __getattr__(self_, name):
+                if name == "isdir":
+                    return lambda p_: True
+                import os as _os
+                return getattr(_os.path, name)
+
+        class _OS:
+            path = _Path()
+
+            def __getattr__(self_, name):
+                if name == "makedirs":
+                    return lambda *a, **k: None
+                import os as _os
+                return getattr(_os, name)
+        self._saved_np, self._saved_os = S.np, S.os
+        S.np, S.os = _NP(), _OS()
 
     def uninstall(self):
         import cuqi.experimental.mcmc._sampler as S
         if "open" in S.__dict__:
             del S.open
+        if hasattr(self, "_saved_np"):
+            S.np, S.os = self._saved_np, self._saved_os
 
 
 # --------------------------------------------------------------------------- probes
